@@ -209,6 +209,8 @@ class IMAPConnection:
         while True:
             try:
                 creds, final = mech.server_attempt(responses)
+            except UnicodeError as exc:
+                raise AuthenticationError('Invalid credentials.') from exc
             except ServerChallenge as chal:
                 chal_bytes = b64encode(chal.data)
                 cont = ResponseContinuation(chal_bytes)
